@@ -76,8 +76,9 @@ func plainDigits(mant string, scale int, st NumStyle, feats Feats) string {
 		grouped = strings.Join(parts, st.Group)
 	}
 	nonzeroInt := strings.Trim(ip, "0") != ""
-	// ambiguity repairs (DESIGN.md 4.3): one mark, three digits after it, non-zero integer part
-	if scale == 3 && ngroups == 0 && nonzeroInt {
+	// ambiguity repairs (DESIGN.md 4.3): one mark, three digits after it, a non-zero integer part of at
+	// most three digits (with four or more before it the mark cannot be a group mark: "1234.567")
+	if scale == 3 && ngroups == 0 && nonzeroInt && len(ip) <= 3 {
 		fp += "0"
 		feats["num.repaired-3dec"] = true
 	}
@@ -117,6 +118,9 @@ func markFeats(s string, feats Feats) {
 	i := strings.IndexAny(t, ".,")
 	if len(t)-i-1 != 3 || strings.Trim(t[:i], "0") == "" {
 		return
+	}
+	if nd := len(strings.TrimLeft(t[:i], "+-")); nd > 3 && !strings.ContainsAny(t, "eE") && !strings.Contains(s, " ") {
+		return // four or more digits before a lone mark: a decimal mark beyond doubt
 	}
 	if strings.ContainsAny(t, "eE") {
 		feats["num.exp-3chars"] = true
@@ -671,6 +675,12 @@ func renderDirective(r *Rendered, d *Directive, ei int, line *int, emit func(*li
 		b.span("keyword", "include")
 		b.w(" ")
 		b.span("path", d.Path)
+		if d.Comment != nil {
+			b.w(d.CSep)
+			renderComment(b, d.Comment, "comment")
+		} else if d.CSep != "" {
+			b.w(d.CSep) // blanks at the end of the line
+		}
 		emit(b, LineInfo{"directive", ei, -1})
 	case "P":
 		b.span("keyword", "P")
